@@ -320,6 +320,16 @@ def dispatcher(chk, prog):
         name = tables.variant_name(k)
         if name in want:
             ok = v[0] == "call" and v[1] == want[name]
+            if not ok:
+                # the arm is a block (`{ let lb = ..; proxy_handler(..) }`): decide on the MIR — the handler's call sites sit under this variant's
+                # edge, and no other route handler does
+                b_ = prog.bodies.get(fn)
+                if b_ is not None:
+                    def under(blk_):
+                        return [lab for s_, lab, gd, info in core.guards_dominating(prog, b_, blk_) if info and info.get("kind") == "enum" and "RouteType" in (info.get("src_ty") or "")]
+                    mine = [blk_ for blk_, t_ in b_.calls() if (t_.get("resolved") or t_.get("callee")) == want[name]]
+                    others = [blk_ for blk_, t_ in b_.calls() if (t_.get("resolved") or t_.get("callee")) in want.values() and (t_.get("resolved") or t_.get("callee")) != want[name]]
+                    ok = bool(mine) and all(under(x) == [name] for x in mine) and not any(name in under(x) for x in others)
             chk.ob("R2.dispatch", fn, f"RouteType::{name} -> {want[name].split('::')[-1]}", ok, f"dispatches to {v[1] if v[0]=='call' else v[0]}")
         else:
             ok = v[0] == "call" and v[1] and v[1].endswith("Response::new") and v[2] and v[2][0][0] == "path" and v[2][0][1].endswith("NotFound")
